@@ -13,8 +13,9 @@ MATCHERS = {}
 
 
 def regen():
-    from translate import named
+    from translate import named, strhelpers
     named.generate()
+    strhelpers.generate()       # CmGen/StrHelpers.lean: the parser's string-to-number helpers as they read now (CmProps/C07tie.lean)
 
 
 def css_expected(s):
@@ -76,6 +77,8 @@ def w_hex_slab(r):
 
 def check(run):
     run.proof = proof_status("C07", regenerate=regen)
+    from translate import strhelpers as _sh
+    run.extra["source_translation"] = _sh.summary()
     q = run.quick()
     repo_import()
     from cm_colors.core.color_parser import parse_color_to_rgb
